@@ -12,6 +12,7 @@ import B2Z.Model.Schema
 import B2Z.Model.ExplodeProto
 import B2Z.Model.IcfDamage
 import B2Z.Model.EncodeProto
+import B2Z.Model.Checks
 /-! JSON line-protocol driver: one request object per line in, one JSON value per line out.
     Only `Model.*` (core Lean) is imported, so this also builds as a native executable. -/
 open Lean
@@ -464,6 +465,16 @@ def handle (j : Json) : Except String Json := do
       ("total_muts", Json.num (JsonNumber.fromNat full.muts)), ("full_error", Json.bool full.error),
       ("state", Json.mkObj state), ("finished", Json.bool (EP.finished o.st)),
       ("prog", Json.arr ((prog.filter fun st => match st with | .check _ => false | _ => true).map (stepJson epObjName)).toArray)])
+  | "checks.accepts" =>
+    let ps ← (← reqArr j "parts").toList.mapM fun v => do
+      let l ← natList v
+      pure (⟨l.getD 0 0, l.getD 1 0, l.getD 2 0⟩ : Checks.Part)
+    pure (Json.mkObj [("accepts", Json.bool (Checks.accepts ps)),
+      ("sorted", Json.arr ((Checks.sortParts ps).map fun p => natsJson [p.contig, p.start, p.stop]).toArray)])
+  | "checks.names" =>
+    let strs : String → Except String (List String) := fun k => do
+      (← reqArr j k).toList.mapM (·.getStr?)
+    pure (Json.bool (Checks.namesOk (← strs "clobber_info") (← strs "clobber_format") (← strs "fixed") (← strs "info") (← strs "format")))
   | "xp.hist" =>
     let c ← xpCfg j
     let hist ← (← reqArr j "history").toList.mapM xpCmd
